@@ -878,6 +878,7 @@ def c02_runner(prop, tier, seed, scratch, spec):
     n_img = n_ok = n_commits = n_unattributed = 0
     kinds = collections.Counter()
     items, expect = [], {}
+    cow_items = []
     imgdir = os.path.join(scratch.dbdir, "cimg")
     os.makedirs(imgdir, exist_ok=True)
     # base histories: fresh files, plus files written earlier (golden files in the current and in the pinned
@@ -907,6 +908,21 @@ def c02_runner(prop, tier, seed, scratch, spec):
                 violations.append((p, "I/O trace of commit %d differs from Gen.commitSteps: %s" % (c["seq"], why), " no-failing-input-found"))
                 continue
             pre = open(os.path.join(cdir, "pre-%d.img" % c["seq"]), "rb").read()
+            # copy-on-write tie (premises of the byte-level theorems of Jamm.Props.C02, evaluated by the Lean driver):
+            # the file when the commit began, with its data writes, with the header write as well
+            ws = [(e[1], e[2]) for e in c["events"] if e[0] == "W"]
+            if ws and ws[-1][0] in (0, pagesize) and len(ws[-1][1]) == pagesize:
+                ln = max([len(pre)] + [o + len(d) for o, d in ws])
+                ln = (ln + pagesize - 1) // pagesize * pagesize
+                mid = crashcheck.apply_writes(pre, ws[:-1], ln)
+                post = crashcheck.apply_writes(mid, ws[-1:], ln)
+                cid = "h%d-c%d" % (idx, c["seq"])
+                paths = []
+                for tag_, data_ in (("pre", crashcheck.apply_writes(pre, [], ln)), ("mid", mid), ("post", post)):
+                    pp = os.path.join(imgdir, "cow-%s-%s" % (cid, tag_))
+                    open(pp, "wb").write(data_)
+                    paths.append(pp)
+                cow_items.append("%s %s %d %s" % (cid, " ".join(paths), pagesize, " ".join("%d:%d" % (o, len(d)) for o, d in ws[:-1] if d)))
             dpre, dpost = dumps.get(c["seq"], [None, None])
             if dpost is None or dpre is None:
                 n_unattributed += 1
@@ -920,6 +936,35 @@ def c02_runner(prop, tier, seed, scratch, spec):
                 kinds[kind + ("-after-return" if after else "")] += 1
         shutil.rmtree(cdir, ignore_errors=True)
     impl, model = imgcheck.parallel_probe(scratch, items)
+    # the premises of the byte-level theorems on every real commit
+    n_cow_ok = 0
+    cow_bad = []
+    if cow_items:
+        lst = scratch.path("cow.list")
+        open(lst, "w").write("\n".join(cow_items) + "\n")
+        rc_, o_, e_, _ = vlib.sh([vlib.JMODEL, "cow", lst], timeout=1800)
+        verdicts = {}
+        for l in o_.split("\n"):
+            a, sep, b = l.partition(" => ")
+            if sep:
+                verdicts[a] = b
+        for ci in cow_items:
+            cid = ci.split(" ")[0]
+            v = verdicts.get(cid, "cow-bad: no verdict from the model driver (rc=%s)" % rc_)
+            if v.startswith("cow-ok"):
+                n_cow_ok += 1
+            else:
+                cow_bad.append((cid, v, ci))
+    for cid, v, ci in cow_bad[:2]:
+        f_ = ci.split(" ")
+        keep = os.path.join(vlib.WORK, "replays", "C02-cow-%s.obs" % cid)
+        os.makedirs(os.path.dirname(keep), exist_ok=True)
+        for tag_, src_ in zip(("pre", "mid", "post"), f_[1:4]):
+            shutil.copy(src_, keep[:-4] + "." + tag_ + ".img")
+        open(keep, "w").write("broken: premise of Jamm.Props.C02.any_partial_commit_shows_previous_state / header_write_switches_states on a real commit\n%s => %s\nimages: %s.{pre,mid,post}.img pagesize %s\ndata writes (offset:length): %s\n" % (cid, v, keep[:-4], f_[4], " ".join(f_[5:])))
+        # a commit that overwrites pages of the state it started from has a crash image that shows a mix: the
+        # image stream normally exhibits it; when it does not, the broken premise is reported on its own
+        violations.append((keep, "commit %s: %s" % (cid, v[:200]), " no-failing-input-found"))
     seen = set()
     for iid, pth, _ in items:
         n_img += 1
@@ -964,7 +1009,8 @@ def c02_runner(prop, tier, seed, scratch, spec):
         "commits_without_an_observed_state_before_and_after": n_unattributed,
         "image_kinds": dict(kinds),
         "commit_step_order": steps,
-        "floors": "at least one logged commit per base history, every image kind present, at most 10%% of the commits unattributed, at least 20 images per commit",
+        "cow_premises": {"commits_evaluated": len(cow_items), "ok": n_cow_ok, "what": "per real commit, by the Lean driver (jmodel cow): no data write touches a header page or a page owned by the decoded state the commit began from; the file without the header write decodes to exactly the previous state; the new header goes to the other slot with a greater id; the state it names is readable from the file before the header write; the new state owns no header page — the premises of Jamm.Props.C02.any_partial_commit_shows_previous_state and header_write_switches_states"},
+        "floors": "at least one logged commit per base history, every image kind present, at most 10%% of the commits unattributed, at least 20 images per commit, the copy-on-write premises evaluated on at least 90%% of the logged commits",
     }
     low = []
     if n_commits < len(bases):
@@ -976,6 +1022,8 @@ def c02_runner(prop, tier, seed, scratch, spec):
         low.append("%d of %d commits have no observed state before and after" % (n_unattributed, n_commits))
     if n_img < 20 * max(1, n_commits - n_unattributed):
         low.append("%d images for %d commits" % (n_img, n_commits))
+    if len(cow_items) * 10 < 9 * n_commits:
+        low.append("copy-on-write premises evaluated on %d of %d commits" % (len(cow_items), n_commits))
     if low and not violations:
         pth = vlib.write_replay(prop, "coverage", [], {"broken": "the crash-image correspondence covers far less than the histories contain: " + "; ".join(low)})
         violations.append((pth, "crash-image coverage below its floor: " + "; ".join(low), " no-failing-input-found"))
